@@ -537,6 +537,10 @@ func (e *Engine) Stop() {
 	}
 
 	e.stopListeners()
+	// connections served in blocking mode are not known to the poller
+	// engine: close them here, or their reader goroutines and descriptors
+	// outlive Stop for as long as the peers stay connected.
+	e.closeAllConns()
 	e.Engine.Stop()
 }
 
